@@ -340,6 +340,12 @@ func TestVfC08StorePolicy(t *testing.T) {
 			}
 		} else {
 			if v == nil {
+				// The cache clock ticks once a second: an entry may leave up to 1 s before its nominal expiry, so an
+				// entry whose policy lifetime is within 1 s (+ the time this case has taken) may rightly be gone.
+				if vfPolicy(M, c.maximumTtl) <= time.Since(before)+1100*time.Millisecond {
+					st.Case(vfkit.Fingerprint(M.String(), mx, "gone"), false, []string{"expired-before-readback"}, func() any { return nil })
+					return
+				}
 				t.Fatalf("a cacheable response (rcode %d) was not found right after Store", M.Rcode())
 			}
 			pool.ReleaseBuf(v)
@@ -369,6 +375,10 @@ func TestVfC08StorePolicy(t *testing.T) {
 			v2, stored2, _ := c.memory.Get(k)
 			pool.ReleaseBuf(k)
 			if v2 == nil {
+				if expire.Sub(stored) <= time.Since(before)+1100*time.Millisecond {
+					st.Case(vfkit.Fingerprint(M.String(), mx, "gone2"), false, []string{"expired-before-readback"}, func() any { return nil })
+					return
+				}
 				t.Fatalf("positive entry disappeared after storing an error response")
 			}
 			pool.ReleaseBuf(v2)
